@@ -133,17 +133,30 @@ class Ctx:
                 allok &= self.oblige(f"theorem {t}", not bad, f"axioms {sorted(found[key])}")
         # forbidden tokens anywhere in the project sources
         hits = []
-        for root, _, files in os.walk(os.path.join(LEAN, "LalrpopModel")):
-            for f in files:
-                if f.endswith(".lean"):
-                    p = os.path.join(root, f)
-                    body = strip_lean_comments(open(p).read())
-                    for m in FORBIDDEN.finditer(body):
-                        hits.append(f"{p}: {m.group(0).strip()}")
+        for p in self._import_closure(module):
+            body = strip_lean_comments(open(p).read())
+            for m in FORBIDDEN.finditer(body):
+                hits.append(f"{p}: {m.group(0).strip()}")
         allok &= self.oblige("no sorry/admit/axiom/native_decide/bv_decide/implemented_by/unsafe/maxHeartbeats 0",
                              not hits, "; ".join(hits[:10]))
         self.coverage.setdefault("theorems", []).extend(theorems)
         return allok
+
+    def _import_closure(self, module):
+        """source files of `module` and everything of this project it imports, transitively"""
+        seen, todo, files = set(), [module], []
+        while todo:
+            m = todo.pop()
+            if m in seen:
+                continue
+            seen.add(m)
+            path = os.path.join(LEAN, m.replace(".", "/") + ".lean")
+            if not os.path.exists(path):
+                continue
+            files.append(path)
+            for imp in re.findall(r"^\s*(?:public\s+)?import\s+(LalrpopModel\.[A-Za-z0-9_.]+)", open(path).read(), re.M):
+                todo.append(imp)
+        return files
 
     def leanchecker(self, module):
         rc, out, err = sh(["lake", "env", "leanchecker", module], cwd=LEAN, timeout=3600)
